@@ -312,7 +312,28 @@ def _ops():
                                   'flags': st.sampled_from([[]] * 10 + [['truncated'], ['wrong-type']])})
     publish = st.just({'op': 'publish'})
     adv = st.fixed_dictionaries({'op': st.just('adv'), 'how': st.sampled_from(['0', '1ms', 'before', 'at', 'after', 'after'])})
-    return st.lists(st.one_of(recv, recv, recv, publish, adv, adv), min_size=2, max_size=25)
+    free = st.lists(st.one_of(recv, recv, recv, publish, adv, adv), min_size=2, max_size=25)
+    anyop = st.one_of(recv, publish, adv)
+
+    @st.composite
+    def template(draw):
+        """A suppression period that is cut short by a publication, followed by a lagging vector and the end of the next
+        suppression period - too rare in free histories (needs four specific steps in order)."""
+        node = draw(st.sampled_from(['n1', 'n2', 'n3']))
+        up = draw(st.sampled_from([2, 5]))
+        via = draw(st.sampled_from(['receive', 'handler']))
+        core = [{'op': 'recv', 'entries': [[node, 'rel', up, None], ['me', 'rel', 0, None]], 'via': via, 'flags': []},
+                {'op': 'adv', 'how': draw(st.sampled_from(['0', '1ms']))},
+                {'op': 'recv', 'entries': [[node, 'rel', -1, None], ['me', 'rel', draw(st.sampled_from([0, -1])), None]], 'via': via,
+                 'flags': []},
+                {'op': 'publish'},
+                {'op': 'recv', 'entries': [[node, 'rel', draw(st.sampled_from([-1, -2])), None], ['me', 'rel', 0, None]], 'via': via,
+                 'flags': []},
+                {'op': 'adv', 'how': 'after'}]
+        k = draw(st.integers(0, 2))
+        core = core[k:] if k < 2 else core
+        return draw(st.lists(anyop, max_size=3)) + core + draw(st.lists(anyop, max_size=4))
+    return st.one_of(free, free, free, template())
 
 
 def _case():
